@@ -87,7 +87,10 @@ def d1_pass_through(chk, repo):
     for q in PASS_THROUGH:
         v = FV(repo, q)
         news = cm.returned_news(v)
-        chk.require(news, f"{q}: no returned Field construction found")
+        if not news:
+            chk.ob(f"{q}::return::kw=valid", False, "C08.D1",
+                   "no returned Field construction: the result is not a new field built with the operand's validity", v.f)
+            continue
         want = v.spec("self.valid")
         for r, args in news:
             got = args.get("valid")
@@ -689,7 +692,14 @@ def d7_persistence(chk, repo):
         loop = [p_ for p_, f_ in v.cfg.enclosing(st) if isinstance(p_, ast.For)][0]
         it = v.term(loop.iter, at=loop)
         idx = v.ctx.mk(("iter", ()), (it,))
-        arrname = v.spec("cell_data.GetArrayName(i)", env={"i": idx}, at=loop)
+        arrname = None
+        for s2 in loop.body:
+            if isinstance(s2, ast.Assign):
+                t2 = v.term(s2.value, at=s2)
+                c2 = decode_call(v.ctx, t2)
+                if c2 and c2[0] == ".GetArrayName" and len(c2[1]) == 2 and v.eq(c2[1][1], idx):
+                    arrname = t2
+        chk.require(arrname is not None, "_from_vtk: the array name is no longer obtained with GetArrayName(i) inside the loop")
         is_valid_reader = any(isinstance(x, ast.Name) and x.id == nm for p_, f_ in v.cfg.enclosing(used[nm])
                               if isinstance(p_, ast.If) for x in ast.walk(p_.test))
         label = "valid" if is_valid_reader else "field"
